@@ -1,4 +1,162 @@
-/- oracle_c10 — placeholder driver (replaced when the C10 model is added). -/
+/-
+  oracle_c10 — line-protocol driver for the C10 models (UTXO record codecs, script / amount
+  compression, snapshot framing). Byte strings are lower-case hex, "-" = empty.
+    camt <n>                         -> <compress n> <compressExact n>
+    damt <x>                         -> <decompress x>
+    cscr <script>                    -> ok <compressed> | nil
+    dscr <data>                      -> ok <script> | nil | panic
+    kvalid <key65>                   -> 0|1                 (mathKeys.valid65)
+    kexpand <key33>                  -> <key65>             (mathKeys.expand33)
+    ser <u|c> <txid> <height> <cb:0|1> <n> <k> (<idx> <value> <script>)*k   -> ok <bytes> <le> | nil
+    dec <u|c> <bytes>                -> ok <txid> <height> <cb> <n> <k> (<idx> <value> <script>)*k | panic | hang
+    one <u|c> <bytes> <vout>         -> ok <value> <script> <height> <voutcount> <cb> | nil | panic | hang
+    snapw <c:0|1> <height> <hash> <k> <rec>*k      -> ok <file>
+    snapr <file>                     -> ok <c> <height> <hash> <k> <rec>*k | err
+-/
+import GocoinV.Model.UtxoRec
 import GocoinV.Base.Proto
-open GocoinV
-def main : IO Unit := Proto.serve () (fun _ _ => ((), "bad-op"))
+open GocoinV GocoinV.UtxoRec
+
+def K : ScriptCompress.KeyOps := ScriptCompress.mathKeys
+
+/-! fast hex codecs (records reach megabytes; `Base.Hex.decodeChars` is not tail recursive) -/
+def hexVal (c : UInt8) : Option UInt8 :=
+  if 48 ≤ c ∧ c ≤ 57 then some (c - 48)
+  else if 97 ≤ c ∧ c ≤ 102 then some (c - 87)
+  else none
+
+partial def unhexGo (a : ByteArray) (i : Nat) (acc : Bytes) : Option Bytes :=
+  if i = 0 then some acc
+  else match hexVal (a.get! (i - 2)), hexVal (a.get! (i - 1)) with
+    | some x, some y => unhexGo a (i - 2) ((x * 16 + y) :: acc)
+    | _, _ => none
+
+def unhex (s : String) : Option Bytes :=
+  if s == "-" then some []
+  else
+    let a := s.toUTF8
+    if a.size % 2 == 1 then none else unhexGo a a.size []
+
+def hexDigit (n : UInt8) : Char := if n < 10 then Char.ofNat (48 + n.toNat) else Char.ofNat (87 + n.toNat)
+
+def hex (b : Bytes) : String :=
+  if b.isEmpty then "-"
+  else b.foldl (fun s x => (s.push (hexDigit (x / 16))).push (hexDigit (x % 16))) ""
+
+def bit (s : String) : Option Bool := if s == "1" then some true else if s == "0" then some false else none
+
+/-- (idx value script)* -/
+partial def parseOuts (toks : List String) (acc : Array (Nat × Nat × Bytes)) : Option (Array (Nat × Nat × Bytes)) :=
+  match toks with
+  | [] => some acc
+  | i :: v :: s :: rest =>
+    match i.toNat?, v.toNat?, unhex s with
+    | some i, some v, some s => parseOuts rest (acc.push (i, v, s))
+    | _, _, _ => none
+  | _ => none
+
+def mkOuts (n : Nat) (live : Array (Nat × Nat × Bytes)) : Option (List (Option Out)) := do
+  let mut a : Array (Option Out) := Array.replicate n none
+  for (i, v, s) in live do
+    if i ≥ n then failure
+    a := a.set! i (some ⟨v, s⟩)
+  return a.toList
+
+def showOuts (outs : List (Option Out)) : String := Id.run do
+  let mut s := ""
+  let mut k := 0
+  let mut i := 0
+  for o in outs do
+    match o with
+    | some o => s := s ++ s!" {i} {o.value} {hex o.pk}"; k := k + 1
+    | none => pure ()
+    i := i + 1
+  return s!"{outs.length} {k}{s}"
+
+def showRes (r : Res Rec) : String :=
+  match r with
+  | .ok r => s!"ok {hex r.txid} {r.inBlock} {Proto.boolStr r.coinbase} {showOuts r.outs}"
+  | .panic => "panic"
+  | .hang => "hang"
+
+def showOne (r : Res (Option TxOut)) : String :=
+  match r with
+  | .ok (some t) => s!"ok {t.value} {hex t.pk} {t.blockHeight} {t.voutCount} {Proto.boolStr t.wasCoinbase}"
+  | .ok none => "nil"
+  | .panic => "panic"
+  | .hang => "hang"
+
+partial def parseRecs (toks : List String) (acc : Array Bytes) : Option (List Bytes) :=
+  match toks with
+  | [] => some acc.toList
+  | r :: rest => match unhex r with
+    | some b => parseRecs rest (acc.push b)
+    | none => none
+
+def step (_ : Unit) (toks : List String) : Unit × String :=
+  let bad := ((), "bad-op")
+  match toks with
+  | ["camt", n] => match n.toNat? with
+    | some n => if n < AmountCompress.U64 then ((), s!"{AmountCompress.compress n} {AmountCompress.compressExact n}") else bad
+    | none => bad
+  | ["damt", x] => match x.toNat? with
+    | some x => if x < AmountCompress.U64 then ((), s!"{AmountCompress.decompress x}") else bad
+    | none => bad
+  | ["cscr", s] => match unhex s with
+    | some s => match ScriptCompress.compress K s with
+      | some c => ((), s!"ok {hex c}")
+      | none => ((), "nil")
+    | none => bad
+  | ["dscr", d] => match unhex d with
+    | some d => match ScriptCompress.decompress K d with
+      | .ok s => ((), s!"ok {hex s}")
+      | .nil => ((), "nil")
+      | .panic => ((), "panic")
+    | none => bad
+  | ["kvalid", k] => match unhex k with
+    | some k => if k.length == 65 then ((), Proto.boolStr (K.valid65 k)) else bad
+    | none => bad
+  | ["kexpand", k] => match unhex k with
+    | some k => if k.length == 33 then ((), hex (K.expand33 k)) else bad
+    | none => bad
+  | "ser" :: mode :: txid :: h :: cb :: n :: k :: rest =>
+    match unhex txid, h.toNat?, bit cb, n.toNat?, k.toNat?, parseOuts rest #[] with
+    | some txid, some h, some cb, some n, some k, some live =>
+      if live.size ≠ k ∨ txid.length ≠ 32 ∨ (mode ≠ "u" ∧ mode ≠ "c") then bad
+      else match mkOuts n live with
+        | none => bad
+        | some outs =>
+          let r : Rec := ⟨txid, h, cb, outs⟩
+          let (res, le) := if mode == "u" then (serializeU r, sizeU r) else (serializeC K r, sizeC K r)
+          match res with
+          | some b => ((), s!"ok {hex b} {le}")
+          | none => ((), "nil")
+    | _, _, _, _, _, _ => bad
+  | ["dec", mode, b] => match unhex b with
+    | some b =>
+      if mode == "u" then ((), showRes (newRecU b))
+      else if mode == "c" then ((), showRes (newRecC K b))
+      else bad
+    | none => bad
+  | ["one", mode, b, v] => match unhex b, v.toNat? with
+    | some b, some v =>
+      if v ≥ 2 ^ 32 then bad
+      else if mode == "u" then ((), showOne (oneU b v))
+      else if mode == "c" then ((), showOne (oneC K b v))
+      else bad
+    | _, _ => bad
+  | "snapw" :: c :: h :: hash :: k :: rest =>
+    match bit c, h.toNat?, unhex hash, k.toNat?, parseRecs rest #[] with
+    | some c, some h, some hash, some k, some recs =>
+      if recs.length ≠ k then bad else ((), s!"ok {hex (snapEncode ⟨c, h, hash, recs⟩)}")
+    | _, _, _, _, _ => bad
+  | ["snapr", f] => match unhex f with
+    | some f => match snapDecode f with
+      | some s =>
+        let rs := s.recs.foldl (fun acc r => acc ++ " " ++ hex r) ""
+        ((), s!"ok {Proto.boolStr s.compressed} {s.height} {hex s.hash} {s.recs.length}{rs}")
+      | none => ((), "err")
+    | none => bad
+  | _ => bad
+
+def main : IO Unit := Proto.serve () step
